@@ -3,13 +3,13 @@ NEXT SimNext
 CONSTANTS
   Nodes = {1, 2, 3}
   Locals = {1}
-  Levels = {"machine", "reactor"}
+  Levels = {"machine", "reactor", "follower"}
   MaxOp = 1000
   BatchIds = {1, 2, 3}
   MaxOff = 9
   Epochs = {1, 2}
   LEpochs = {1, 2, 3}
-  Leaders = {1, 2}
+  Leaders = {1, 2, 3}
   ReplicaSets = {{1, 2, 3}, {1, 2}}
   ISRs = {{1}, {1, 2}, {1, 2, 3}}
   MinISRs = {0, 1, 2, 3}
@@ -17,6 +17,11 @@ CONSTANTS
   Modes = {"quorum", "local", "default"}
   Counts = {0, 1, 2}
   Gens = {1, 2}
+  QLogs = {FALSE, TRUE}
+  StoreLeos = {0, 2, 3}
+  StoreCks = {0, 1, 3}
+  RGens = {1, 2}
+  MaxFut = 1000
   Depth = 30
 INVARIANT Emit
 CHECK_DEADLOCK FALSE
